@@ -317,3 +317,48 @@ def run(ctx, F, rule="E-RAW"):
         reads_free = "free" in edm.fields_of(m, RT)
         ctx.ob(rule + ".probe", rule + ".probe:reserve", reads_free and any(c.endswith("::reserve_rehash") for c in calls),
                "reserve (%s) must compare the free-slot counter with the required spare and call reserve_rehash" % F.where(fid))
+    check_slot_clone(ctx, F)
+
+
+def check_slot_clone(ctx, F, rule="E-RAW.clone"):
+    """`RawTable::clone` copies the slot array element-wise; probe chains stay intact only if every slot keeps its
+    status word -- a tombstone must stay a tombstone (a FREE slot in its place cuts the chain behind it).  From MIR of
+    `<Slot as Clone>::clone`: every value written to the return place is a `Slot { status: self.status, .. }`."""
+    fids = [f for f in F.mir if f.startswith("linear_hashtbl::raw::") and f.endswith("::clone") and "Slot<" in F.nice(f)
+            and "RawTable" not in F.nice(f)]
+    if not ctx.anchor(rule, "<Slot as Clone>::clone", len(fids) == 1):
+        return 0
+    fid = fids[0]
+    m = F.mir[fid]
+    B = cfg.Body(m)
+    from_self = set()
+    for i in B.reach:
+        for s in m["blocks"][i]["s"]:
+            rv = s.get("rv") or {}
+            if rv.get("k") == "use" and isinstance(s.get("lhs"), int):
+                o = rv["op"]
+                v = o.get("cp", o.get("mv"))
+                if isinstance(v, dict) and v.get("l") == 1 and any(str(e).startswith(".status@") for e in v.get("p", [])):
+                    from_self.add(s["lhs"])
+                elif isinstance(v, int) and v in from_self:
+                    from_self.add(s["lhs"])
+    writes = []
+    for i in sorted(B.reach):
+        if m["blocks"][i]["c"]:
+            continue
+        for s in m["blocks"][i]["s"]:
+            if s.get("lhs") == 0:
+                rv = s.get("rv") or {}
+                ok = rv.get("k") == "aggr" and str(rv.get("adt", "")).endswith("::Slot") and rv.get("ops") and \
+                    (rv["ops"][0].get("cp", rv["ops"][0].get("mv")) in from_self)
+                writes.append(ok)
+        t = m["blocks"][i].get("t") or {}
+        if t.get("k") == "call" and t.get("d") == 0:
+            writes.append(False)
+    ok = bool(writes) and all(writes)
+    ctx.ob(rule, rule + ":Slot::clone", ok,
+           "%s (%s): %s" % (F.nice(fid), F.where(fid),
+                            "the clone of a slot carries the status word of the original" if ok else
+                            "on some path the cloned slot does not carry `self.status` (e.g. a constant FREE slot for a "
+                            "tombstone): probe chains of the cloned table are cut"))
+    return 1
